@@ -1,6 +1,7 @@
 package main
 
 import (
+	"go/constant"
 	"fmt"
 	"go/token"
 	"go/types"
@@ -394,6 +395,23 @@ func (t *Tr) callInner(instr ssa.Instruction, cc *ssa.CallCommon, pos token.Pos,
 		t.assumeGlobalInvs(st, t.reach[t.curBlk])
 		return res
 	}
+	// generated nil-safe getters (protobuf: func (m *T) GetF() X { if m != nil { return m.F }; return zero }) are read
+	// for what they are: a field read guarded by a nil test, no effect
+	if callee != nil && rtypes.Len() == 1 && !cc.IsInvoke() && len(cc.Args) == 1 {
+		if fi, ok := nilSafeGetter(callee); ok {
+			recv := t.term(cc.Args[0])
+			styp := deref(cc.Args[0].Type())
+			comp, _ := t.regField(styp, fi)
+			ftyp := styp.Underlying().(*types.Struct).Field(fi).Type()
+			val := t.c.locRead(st, &Loc{Kind: "field", Comp: comp, Idx: recv, Typ: ftyp})
+			res := t.callResults(instr, rtypes, st)
+			if res != nil && res.T.Sort == val.Sort {
+				t.c.assert(eq(res.T, ite(eq(recv, tInt(0)), t.c.zero(ftyp), val)))
+				t.trusted["generated nil-safe getters are read as a guarded field read (pattern-matched on their SSA body)"] = true
+				return res
+			}
+		}
+	}
 	// no contract: havoc the computed frame
 	if callee != nil && !inModule(callee) {
 		t.trusted["library call "+callee.String()+" (results unconstrained; writes only through slice arguments)"] = true
@@ -428,6 +446,107 @@ func shortCallee(name string) string {
 		return name[i+1:]
 	}
 	return name
+}
+
+// nilSafeGetter recognises, on the SSA body, a method of the exact shape
+//
+//	func (m *T) GetF() X { if m != nil { return m.F }; return <zero value> }
+//
+// and returns the index of F.
+func nilSafeGetter(fn *ssa.Function) (int, bool) {
+	if fn == nil || len(fn.Params) != 1 || len(fn.Blocks) != 3 || fn.Signature.Results().Len() != 1 {
+		return 0, false
+	}
+	recv := fn.Params[0]
+	if _, ok := recv.Type().Underlying().(*types.Pointer); !ok {
+		return 0, false
+	}
+	if _, ok := deref(recv.Type()).Underlying().(*types.Struct); !ok {
+		return 0, false
+	}
+	b0 := fn.Blocks[0]
+	var instrs []ssa.Instruction
+	for _, in := range b0.Instrs {
+		if _, dbg := in.(*ssa.DebugRef); !dbg {
+			instrs = append(instrs, in)
+		}
+	}
+	if len(instrs) != 2 {
+		return 0, false
+	}
+	cmp, ok := instrs[0].(*ssa.BinOp)
+	if !ok || cmp.Op != token.NEQ || cmp.X != ssa.Value(recv) {
+		return 0, false
+	}
+	if c, ok := cmp.Y.(*ssa.Const); !ok || !c.IsNil() {
+		return 0, false
+	}
+	iff, ok := instrs[1].(*ssa.If)
+	if !ok || iff.Cond != ssa.Value(cmp) {
+		return 0, false
+	}
+	thenB, elseB := b0.Succs[0], b0.Succs[1]
+	var tb []ssa.Instruction
+	for _, in := range thenB.Instrs {
+		if _, dbg := in.(*ssa.DebugRef); !dbg {
+			tb = append(tb, in)
+		}
+	}
+	if len(tb) != 3 {
+		return 0, false
+	}
+	fa, ok := tb[0].(*ssa.FieldAddr)
+	if !ok || fa.X != ssa.Value(recv) {
+		return 0, false
+	}
+	ld, ok := tb[1].(*ssa.UnOp)
+	if !ok || ld.Op != token.MUL || ld.X != ssa.Value(fa) {
+		return 0, false
+	}
+	ret, ok := tb[2].(*ssa.Return)
+	if !ok || len(ret.Results) != 1 || ret.Results[0] != ssa.Value(ld) {
+		return 0, false
+	}
+	var eb []ssa.Instruction
+	for _, in := range elseB.Instrs {
+		if _, dbg := in.(*ssa.DebugRef); !dbg {
+			eb = append(eb, in)
+		}
+	}
+	if len(eb) != 1 {
+		return 0, false
+	}
+	r2, ok := eb[0].(*ssa.Return)
+	if !ok || len(r2.Results) != 1 {
+		return 0, false
+	}
+	cst, ok := r2.Results[0].(*ssa.Const)
+	if !ok {
+		return 0, false
+	}
+	// the zero value of the result type: nil constant, or a zero/empty basic constant
+	if !cst.IsNil() {
+		if cst.Value == nil {
+			return 0, false
+		}
+		switch cst.Value.Kind() {
+		case constant.Int, constant.Float:
+			if constant.Sign(cst.Value) != 0 {
+				return 0, false
+			}
+		case constant.String:
+			if constant.StringVal(cst.Value) != "" {
+				return 0, false
+			}
+		case constant.Bool:
+			if constant.BoolVal(cst.Value) {
+				return 0, false
+			}
+		default:
+			return 0, false
+		}
+	}
+	return fa.Field, true
 }
 
 func isErrorCtor(name string) bool {
